@@ -10,6 +10,7 @@ set via using() differs).
 import hashlib
 import hmac
 import json
+import logging
 import struct
 import time as _time
 
@@ -67,6 +68,7 @@ def build(tier, rng):
     from passlib import totp as totp_mod
     from passlib.totp import TOTP, AppWallet
 
+    logging.disable(logging.WARNING)  # lookup_hash logs a warning for every unknown algorithm name of the corrupted sources
     groups = []
     skipped = []
     stats = {"inadmissible": 0}
@@ -182,6 +184,10 @@ def build(tier, rng):
     # ---- the grid: configuration x classes --------------------------------------------------------------
     g = G("roundtrip-grid", "TOTP.to_uri/from_uri/to_json/from_json/to_dict/from_dict", "8 classes (TOTP and TOTP.using(digits/alg/period/issuer...)) x key sizes 1..64 x alg x digits 6..10 and class default x periods 1,30,60,3600,random and class default x random label/issuer over the hostile alphabet (length 0..6) x uri/json/dict x from_X / from_source / bytes input; excluded: instance value = literal default while class default differs")
     reps = 1 if quick else 6
+    # the two white-space witnesses, always (so that the keys reported by this group do not depend on the seed)
+    for lab in (" ", " user", "user\u00a0"):
+        ok = roundtrip(g, "TOTP", TOTP, {"key": b"0123456789abcdefghij", "label": lab}, [59])
+        g.case(("white-space-label", lab), nontrivial=ok)
     for cname, cls, cdef in classes:
         for size in range(1, 65):
             for _ in range(reps):
@@ -343,6 +349,16 @@ def build(tier, rng):
     g.case("enckey-no-wallet")
     o = outcome(TOTP.from_dict, {"v": 1, "type": "totp", "enckey": {"v": 1, "c": 4, "t": "1", "s": "AAAAAAAA", "k": "AAAAAAAA"}})
     g.check(o[0] == "exc" and o[3], "corrupt:enckey-no-wallet", "encrypted key accepted although no application secret is configured", {"outcome": repr(o)})
+    # sources that are refused, but not with ValueError (each pinned under its own key)
+    for tag, fkey, uri in (
+        ("label-blank", "totp:uri-label-blank", f"otpauth://totp/%20?secret={S}"),
+        ("label-empty-after-issuer", "totp:uri-label-blank", f"otpauth://totp/Acme:?secret={S}&issuer=Acme"),
+        ("algorithm-blank", "corrupt:uri:algorithm-blank", f"otpauth://totp/a?secret={S}&algorithm=%20"),
+        ("algorithm-nul", "corrupt:uri:algorithm-nul", f"otpauth://totp/a?secret={S}&algorithm=SHA%001"),
+    ):
+        g.case((tag, "from_uri"))
+        o = refused(TOTP.from_uri, uri)
+        g.check(o is None, fkey, "URI without a usable label / with a garbage algorithm name is not refused with ValueError", {"uri": uri, "outcome": o})
     # single-character corruptions of valid URIs
     nfuzz = 20000 if quick else 400000
     subst = list("%&=:/?#+ @;,.-_~[]0aZ") + ["%2", "%ZZ", "%00", "é", "&&", "=="]
@@ -361,15 +377,20 @@ def build(tier, rng):
         g.case(("fuzz", uri))
         try:
             back = TOTP.from_uri(uri)
-        except ValueError:
-            continue
-        except NotImplementedError:
-            continue
-        except AssertionError as err:
-            g.fail("totp:uri-label-blank" if "label" in str(err) else "corrupt:fuzz:AssertionError", "a corrupted URI is neither loaded nor refused with ValueError (AssertionError; label empty after stripping)", {"uri": uri, "error": repr(err)})
+        except (ValueError, NotImplementedError):
             continue
         except Exception as err:  # noqa: BLE001
-            g.fail(f"corrupt:fuzz:{type(err).__name__}", "a corrupted URI is neither loaded nor refused with ValueError", {"uri": uri, "error": repr(err)})
+            # the three classes pinned by explicit sources above keep their keys, whatever the seed finds
+            msg = str(err)
+            if isinstance(err, AssertionError) and "label" in msg:
+                fkey = "totp:uri-label-blank"
+            elif isinstance(err, AssertionError) and msg == "":
+                fkey = "corrupt:uri:algorithm-blank"
+            elif isinstance(err, TypeError) and "name must be a string" in msg:
+                fkey = "corrupt:uri:algorithm-nul"
+            else:
+                fkey = f"corrupt:fuzz:{type(err).__name__}"
+            g.fail(fkey, "a corrupted URI is neither loaded nor refused with ValueError", {"uri": uri, "error": repr(err)})
             continue
         # whatever was loaded must be a usable object
         tk = outcome(lambda: back.generate(59).token)
